@@ -8,7 +8,7 @@ Ops (one answer line each); strings are `pctEnc`-oded, inside lists `,` and `:` 
   L2 filter tree  flow <name> <u|s|e> <url> m=<M,..|-> h=<k:v,..|-> q=<k:v|k,..|-> s=<code,..|->   -> ok
                   load perm=<i,j,...>               -> r=<ok|err:…|panic>,...        (fresh tree; one result per flow,
                                                        in load order; a failing AddFlow is skipped)
-                  req <method> <url> h=<k:v,..|-> q=<k:v,..|->     -> no-tree | found=<0|1> u=<names|-> s=<..> e=<..>
+                  req <method> <url> h=<k:v,..|-> q=<k:v,..|-> [rq=<raw query>]   -> no-tree | found=<0|1> u=<names|-> s=<..> e=<..>
                   res <method> <url> st=<code>                     -> no-tree | found=<0|1> u=<names|-> s=<..> e=<..>
   L3 engine       eng req <method> <url> h=.. q=.. | eng res <method> <url> st=..     -> model: the set of answers over all load orders
                                                                       (see `engAnswers`); impl: the engine's answer
@@ -73,7 +73,10 @@ def parseReq (isResp : Bool) (ws : List String) : Option Txn :=
       pure ⟨true, pctDec m, splitURL (pctDec url), [], [], st⟩
     else do
       let hs ← (kv rest "h").bind parsePairs
-      let qs ← (kv rest "q").bind parsePairs
+      -- `rq=<raw query string>` wins over the well-formed list `q=k:v,...`
+      let qs ← match kv rest "rq" with
+        | some raw => some (parseQuery (pctDec raw))
+        | none => (kv rest "q").bind parsePairs
       pure ⟨false, pctDec m, splitURL (pctDec url), hs, qs, 0⟩
   | _ => none
 
